@@ -667,6 +667,7 @@ impl<T: Smp> Inst<T> {
             }
         };
         let empty_masked = gb(op, "empty_masked", false);
+        let masked_len = gi(op, "masked_len", -1);
         // ---- shapes
         let in_ch = (nch as i64 + gi(op, "in_ch", 0)).max(0) as usize;
         let out_ch = (nch as i64 + gi(op, "out_ch", 0)).max(0) as usize;
@@ -730,6 +731,11 @@ impl<T: Smp> Inst<T> {
             if c < nch && !active(c) && empty_masked {
                 len = 0;
             }
+            // "masked_len": k - inactive channels are passed with k frames (non-empty, usually too short: a
+            // buffer the caller did not bother to resize for a channel that is skipped anyway)
+            if c < nch && !active(c) && masked_len >= 0 {
+                len = len.min(masked_len as usize);
+            }
             let zf = per_ch("zpc", c).map(|v| v.min(in_next as i64)).unwrap_or(zero_from);
             // "chbase" on a call: this call's data comes from that channel of the signal (twins of aliased channels)
             let chbase = gi(op, "chbase", self.chbase as i64).max(0) as usize;
@@ -773,6 +779,9 @@ impl<T: Smp> Inst<T> {
             }
             if c < nch && !active(c) && empty_masked {
                 len = 0;
+            }
+            if c < nch && !active(c) && masked_len >= 0 {
+                len = len.min(masked_len as usize);
             }
             wout.push((0..len).map(|k| fillv(c, k)).collect());
         }
@@ -1506,6 +1515,13 @@ fn exec_op(insts: &mut Vec<Option<Slot>>, op: &Value, cx: &mut Ctx) {
             kernel_events::<f32>(op, cx);
         } else {
             kernel_events::<f64>(op, cx);
+        }
+        return;
+    }
+    if name == "drop" {
+        // the instance is dropped (its Drop runs here); later ops on this id are skipped
+        if let Some(s) = insts.get_mut(id) {
+            *s = None;
         }
         return;
     }
